@@ -27,6 +27,8 @@ import (
 
 var version = "unset"
 
+var commit = "no-commit-recorded"
+
 type mainRecord struct {{
 	Name  string
 	Count int
@@ -41,7 +43,7 @@ type hiddenRecord struct {{
 func main() {{
 	r := mainRecord{{"main-record", {variant}}}
 	fmt.Printf("%+v\\n", r)
-	fmt.Println(mid.Describe(3), mid.Total(4), version, extra(), mid.Wrap(hiddenRecord{{1, "b"}}))
+	fmt.Println(mid.Describe(3), mid.Total(4), version, commit, extra(), mid.Wrap(hiddenRecord{{1, "b"}}))
 	if len(os.Args) > 5 {{
 		os.Exit(3)
 	}}
